@@ -1491,6 +1491,9 @@ func (c *Ctx) step(s *State, fr *Frame, in ssa.Instruction) []*State {
 			c.assume(s, c.dynTypeFact(ref, el))
 			c.storeAt(s, pv, el, c.zeroVal(s, el))
 			fr.regs[x] = pv
+			if structOf(el) != nil && c.allocIsPrivate(x) {
+				s.privates = append(s.privates[:len(s.privates):len(s.privates)], privateObj{ref, el})
+			}
 		} else {
 			lv := LocV{Kind: LocCell, Base: ref, Ty: x.Type()}
 			c.storeAt(s, lv, el, c.zeroVal(s, el))
@@ -1653,6 +1656,69 @@ func (c *Ctx) tryVal(s *State, v ssa.Value) (val Val, ok bool) {
 		}
 	}()
 	return c.val(s, v), true
+}
+
+// allocIsPrivate: the address of the local variable is only used for loads and stores through it (also through field and
+// array-element addresses derived from it) and as an argument of static calls of module functions whose matching
+// parameter is itself only used that way (one level). Such storage cannot be reached by any callee.
+func (c *Ctx) allocIsPrivate(a *ssa.Alloc) bool {
+	if v, ok := c.eng.privateAllocs.Load(a); ok {
+		return v.(bool)
+	}
+	r := c.addrStaysLocal(a, 1)
+	c.eng.privateAllocs.Store(a, r)
+	return r
+}
+
+func (c *Ctx) addrStaysLocal(v ssa.Value, depth int) bool {
+	refs := v.Referrers()
+	if refs == nil {
+		return false
+	}
+	for _, ref := range *refs {
+		switch r := ref.(type) {
+		case *ssa.DebugRef:
+		case *ssa.UnOp:
+			if r.Op != token.MUL {
+				return false
+			}
+		case *ssa.Store:
+			if r.Val == v || r.Addr != v {
+				return false
+			}
+		case *ssa.FieldAddr:
+			if !c.addrStaysLocal(r, depth) {
+				return false
+			}
+		case *ssa.IndexAddr:
+			if r.X != v {
+				return false
+			}
+			if _, isPtrToArray := v.Type().Underlying().(*types.Pointer); !isPtrToArray {
+				return false
+			}
+			if !c.addrStaysLocal(r, depth) {
+				return false
+			}
+		case *ssa.Call:
+			com := r.Common()
+			fn, ok := com.Value.(*ssa.Function)
+			if !ok || com.IsInvoke() || depth == 0 || fn.Blocks == nil || fn.Pkg == nil || !strings.HasPrefix(fn.Pkg.Pkg.Path(), c.eng.modPath) {
+				return false
+			}
+			for i, arg := range com.Args {
+				if arg != v {
+					continue
+				}
+				if i >= len(fn.Params) || !c.addrStaysLocal(fn.Params[i], depth-1) {
+					return false
+				}
+			}
+		default:
+			return false
+		}
+	}
+	return true
 }
 
 func (c *Ctx) onlyLocalUses(a *ssa.Alloc) bool {
@@ -2150,6 +2216,11 @@ func (c *Ctx) typeAssert(s *State, fr *Frame, x *ssa.TypeAssert) {
 	var res Val
 	if types.IsInterface(x.AssertedType) {
 		okT = c.implementsTerm(iv.Tag, x.AssertedType)
+		if ai, ok := x.AssertedType.Underlying().(*types.Interface); ok && types.IsInterface(x.X.Type()) && types.Implements(x.X.Type(), ai) {
+			// every dynamic type of an operand of static type I implements I: v.(I) fails only for nil
+			// (go/ssa emits this form as the nil check of an interface method value)
+			okT = fmt.Sprintf("(not (= %s 0))", iv.Tag)
+		}
 		r := iv
 		r.Ty = x.AssertedType
 		res = r
